@@ -88,7 +88,7 @@ Proof. exact no_loss_startup_common. Qed.
 Print Assumptions C02_no_loss_startup_common.
 
 (* the fake server of the harness is one instance of the contract *)
-Theorem C02_std_server_ok : forall n b tr sl tl csl ctl, server_ok (std_config n b tr sl tl csl ctl).
+Theorem C02_std_server_ok : forall n b tr dm sl tl csl ctl, server_ok (std_config n b tr dm sl tl csl ctl).
 Proof. exact std_server_ok. Qed.
 Print Assumptions C02_std_server_ok.
 
@@ -129,7 +129,7 @@ Print Assumptions C01_manager_in_order.
 
 (* ---- the findings, as witnesses on the routing BEFORE the repair (Model/UpdMgrOld.v) ---- *)
 Definition E (i k s p n : Z) : entry := {| eid := i; ekind := k; eseq := s; epos := p; ecnt := n |}.
-Definition cfg0 (n : Z) (b : Z -> Z) (sl : Z) : config := std_config n b (fun _ => true) sl 0 0 0.
+Definition cfg0 (n : Z) (b : Z -> Z) (sl : Z) : config := std_config n b (fun _ => true) (fun _ => false) sl 0 0 0.
 Definition vis_of (l : list Z) : Z -> Z := fun s => nth (Z.to_nat s) l 0.
 
 (* log [Msg@1; Other@2], nothing pushed, one completed recovery: the other update is lost *)
@@ -174,7 +174,7 @@ Proof. vm_compute. reflexivity. Qed.
    duplicate), loss, a channel that becomes tracked by its first pushed update, sliced
    recoveries; everything is delivered exactly once *)
 Definition nv_log : list entry := [E 1 0 0 1 1; E 2 1 0 3 2; E 3 0 0 4 1; E 4 2 1 1 1; E 5 3 1 2 1; E 6 4 2 1 1; E 7 5 2 2 1].
-Definition nv_cfg : config := std_config 3 (fun _ => 0) (fun s => negb (s =? 2)) 1 0 1 0.
+Definition nv_cfg : config := std_config 3 (fun _ => 0) (fun s => negb (s =? 2)) (fun _ => false) 1 0 1 0.
 Definition nv_vis := vis_of [4; 2; 2; 2].
 Definition nv_ops : list mop :=
   [MStartup (vis_of [0; 0; 0; 0]); MPushC nv_vis 1 2 [3; 5; 6] false; MPushC nv_vis 2 1 [1; 1] true; MChanTooLong nv_vis 2].
